@@ -29,6 +29,7 @@ func runC20(c *Ctx) {
 	c.Doc("R20.2", "slices bounded by *input.First / *input.Last are dominated by the non-negative edge of the '< 0 → error' test and by len(edges) > n")
 	c.Doc("R20.3", "suffix truncation sets HasNextPage, prefix truncation sets HasPreviousPage; StartCursor/EndCursor are cursors[0]/cursors[len-1] under len>0; totalCount = len(source parameter)")
 	c.Doc("R20.4", "CursorToOffset fails on undecodable input; OffsetToCursor and CursorToOffset share the cursor prefix constant")
+	c.Doc("R20.6", "every edge maker call receives a node of the list scanned and that node's position in the list as passed in (loop index, plus the number of elements cut off the front when a suffix is scanned: the companion phi of the list phi holds exactly the low bound of each cut); the after-cut is source[j+1:] for the matched position j; in the before-scan nothing is collected before the comparison or after a match, and a match leaves the loop")
 	c.Doc("R20.5", "the source of every connections.*Con call is not an unsorted map walk")
 	p := w.Pkg("api/graphql/connections")
 	if p == nil {
@@ -132,9 +133,11 @@ func runC20(c *Ctx) {
 		}
 		c.seeFn(funcName(fn))
 		checkPaginationShape(c, fn, name)
+		checkIndexDiscipline(c, fn, name)
 	}
 	checkCursorFns(c)
 	checkSourcesOrdered(c)
+	checkEdgeAndConMakers(c)
 }
 
 // derefOfInputField: v is *input.<field> (load of the pointer stored in field of the ConnectionInput parameter)
@@ -202,7 +205,7 @@ func checkPaginationShape(c *Ctx, fn *ssa.Function, name string) {
 					okSlices, detail = false, "a slice bounded by "+field+" at "+w.InstrPos(sl)+" is reachable without the negative-size test"
 				}
 				// len(edges) > n
-				okLen := false
+				okLen, weakLen := false, false
 				for _, cc := range controlConds(b, nil) {
 					bo, isBo := cc.If.Cond.(*ssa.BinOp)
 					if !isBo {
@@ -219,13 +222,36 @@ func checkPaginationShape(c *Ctx, fn *ssa.Function, name string) {
 						op = negateOp(op)
 					}
 					if lc, isCall := x.(*ssa.Call); isCall {
-						if bi, isB := lc.Common().Value.(*ssa.Builtin); isB && bi.Name() == "len" && (op == token.GTR || op == token.GEQ) {
-							okLen = true
+						if bi, isB := lc.Common().Value.(*ssa.Builtin); isB && bi.Name() == "len" {
+							if op == token.GTR {
+								okLen = true
+							} else if op == token.GEQ {
+								weakLen = true
+							}
 						}
 					}
 				}
-				if !okLen {
+				if !okLen && weakLen {
+					okSlices, detail = false, "the truncation at "+w.InstrPos(sl)+" also happens when exactly "+field+" elements remain: nothing is cut but the has-more flag is set, the client pages into an empty page"
+				} else if !okLen {
 					okSlices, detail = false, "a slice bounded by "+field+" at "+w.InstrPos(sl)+" is not guarded by len(...) > "+field+" (slice bounds out of range when the page is larger than the list)"
+				}
+				// exact form: x[:first] / x[len(x)-last:]
+				if field == "First" && !(sl.Low == nil && sl.High != nil && derefOfInputField(sl.High, field)) {
+					okSlices, detail = false, "the truncation at "+w.InstrPos(sl)+" is not x[:first]"
+				}
+				if field == "Last" {
+					okForm := false
+					if lo, isBo := sl.Low.(*ssa.BinOp); isBo && sl.High == nil && lo.Op == token.SUB && derefOfInputField(lo.Y, field) {
+						if lc, isCall := lo.X.(*ssa.Call); isCall {
+							if bi, isB := lc.Common().Value.(*ssa.Builtin); isB && bi.Name() == "len" && lc.Common().Args[0] == sl.X {
+								okForm = true
+							}
+						}
+					}
+					if !okForm {
+						okSlices, detail = false, "the truncation at "+w.InstrPos(sl)+" is not x[len(x)-last:]"
+					}
 				}
 			}
 		}
@@ -545,5 +571,363 @@ func checkSourcesOrdered(c *Ctx) {
 	}
 	if n < 6 {
 		c.Violate("R20.5", "expected:pagination-calls", "api/graphql/resolvers", fmt.Sprintf("%d pagination calls found (reference 8)", n))
+	}
+}
+
+// sameExpr: structural equality of small integer expressions (go/ssa performs no CSE: i+1
+// written twice is two instructions).
+func sameExpr(a, b ssa.Value, depth int) bool {
+	if a == b {
+		return true
+	}
+	if depth > 3 {
+		return false
+	}
+	if ka, ok := constInt(a); ok {
+		kb, ok2 := constInt(b)
+		return ok2 && ka == kb
+	}
+	ba, ok1 := a.(*ssa.BinOp)
+	bb, ok2 := b.(*ssa.BinOp)
+	if ok1 && ok2 && ba.Op == bb.Op {
+		if sameExpr(ba.X, bb.X, depth+1) && sameExpr(ba.Y, bb.Y, depth+1) {
+			return true
+		}
+		if (ba.Op == token.ADD || ba.Op == token.MUL) && sameExpr(ba.X, bb.Y, depth+1) && sameExpr(ba.Y, bb.X, depth+1) {
+			return true
+		}
+	}
+	return false
+}
+
+// checkIndexDiscipline (R20.6): offsets handed to the edge maker are positions in the list as
+// passed in, whatever window was cut before; the after-cut starts right behind the matched
+// element; elements are collected in the before-scan only while the cursor has not matched.
+func checkIndexDiscipline(c *Ctx, fn *ssa.Function, name string) {
+	w := c.W
+	var srcParam, maker *ssa.Parameter
+	for _, p := range fn.Params {
+		if _, isSl := p.Type().Underlying().(*types.Slice); isSl && srcParam == nil {
+			srcParam = p
+		}
+		if sg, isSig := p.Type().Underlying().(*types.Signature); isSig && sg.Params().Len() == 2 && sg.Results().Len() == 1 && maker == nil {
+			maker = p
+		}
+	}
+	if srcParam == nil || maker == nil {
+		c.Undecided("R20.6", name+":edge-offsets", w.FnPos(fn), "source / edge maker parameters not recognised")
+		return
+	}
+	// base(S): S is the source as passed in (base 0), or a phi of it and source[low:] whose
+	// companion phi (same block, same incoming edges) holds 0 / low.
+	baseOK := func(S ssa.Value, B ssa.Value) (bool, string) {
+		if S == ssa.Value(srcParam) {
+			if B == nil {
+				return true, ""
+			}
+			if k, isK := constInt(B); isK && k == 0 {
+				return true, ""
+			}
+			return false, "an offset is added to positions of the uncut list"
+		}
+		sp, isPhi := S.(*ssa.Phi)
+		if !isPhi {
+			return false, "the list scanned is not the source or a suffix of it"
+		}
+		bp, isPhiB := B.(*ssa.Phi)
+		if B == nil {
+			return false, "the position within the cut list is used as the offset: after an 'after' cursor the cursors handed out are those of other elements"
+		}
+		if !isPhiB || bp.Block() != sp.Block() || len(bp.Edges) != len(sp.Edges) {
+			return false, "the offset added does not follow the cut of the list"
+		}
+		for i, se := range sp.Edges {
+			be := bp.Edges[i]
+			if se == ssa.Value(srcParam) {
+				if k, isK := constInt(be); !isK || k != 0 {
+					return false, "offset is not 0 where the list is uncut"
+				}
+				continue
+			}
+			sl, isSl := se.(*ssa.Slice)
+			if !isSl || sl.X != ssa.Value(srcParam) || sl.High != nil || sl.Low == nil {
+				return false, "the list scanned is not a suffix of the source"
+			}
+			if !sameExpr(sl.Low, be, 0) {
+				return false, "the offset differs from the number of elements cut off the front (" + w.InstrPos(sl) + ")"
+			}
+		}
+		return true, ""
+	}
+	nCalls, okAll, why := 0, true, ""
+	var pos string
+	for _, b := range fn.Blocks {
+		for _, ins := range b.Instrs {
+			cl, isCall := ins.(*ssa.Call)
+			if !isCall || cl.Common().Value != ssa.Value(maker) || len(cl.Common().Args) != 2 {
+				continue
+			}
+			nCalls++
+			c.Sites++
+			pos = w.InstrPos(cl)
+			ld, isLd := cl.Common().Args[0].(*ssa.UnOp)
+			var ia *ssa.IndexAddr
+			if isLd {
+				ia, _ = ld.X.(*ssa.IndexAddr)
+			}
+			if ia == nil {
+				okAll, why = false, "the node handed to the edge maker at "+pos+" is not an element of the list scanned"
+				continue
+			}
+			idx := cl.Common().Args[1]
+			var B ssa.Value
+			if idx != ia.Index {
+				bo, isBo := idx.(*ssa.BinOp)
+				switch {
+				case isBo && bo.Op == token.ADD && bo.X == ia.Index:
+					B = bo.Y
+				case isBo && bo.Op == token.ADD && bo.Y == ia.Index:
+					B = bo.X
+				default:
+					okAll, why = false, "the offset handed to the edge maker at "+pos+" is not the position of the node"
+					continue
+				}
+			}
+			if ok, reason := baseOK(ia.X, B); !ok {
+				okAll, why = false, "at "+pos+": "+reason
+			}
+		}
+	}
+	if nCalls < 3 {
+		okAll, why = false, fmt.Sprintf("%d edge maker calls found (reference 3: after-scan, before-scan, plain scan)", nCalls)
+	}
+	c.Check(okAll, "R20.6", name+":edge-offsets", w.FnPos(fn), fmt.Sprintf("%d edge maker calls, each with the node's position in the list as passed in", nCalls), why)
+
+	// after-cut: source[j+1:] under cursor == *input.After, j the position of the matched node
+	okAfter, whyAfter := false, "no cut of the source under the 'after' cursor match"
+	for _, b := range fn.Blocks {
+		for _, ins := range b.Instrs {
+			sl, isSl := ins.(*ssa.Slice)
+			if !isSl || sl.X != ssa.Value(srcParam) {
+				continue
+			}
+			for _, cc := range controlConds(b, nil) {
+				bo, isBo := cc.If.Cond.(*ssa.BinOp)
+				if !isBo || bo.Op != token.EQL || cc.Edge != 0 || !(derefOfInputField(bo.X, "After") || derefOfInputField(bo.Y, "After")) {
+					continue
+				}
+				// j: the index of the edge maker call whose cursor is compared
+				var j ssa.Value
+				for _, side := range []ssa.Value{bo.X, bo.Y} {
+					if gc, isC := side.(*ssa.Call); isC && gc.Common().IsInvoke() {
+						if mk, isMk := gc.Common().Value.(*ssa.Call); isMk && mk.Common().Value == ssa.Value(maker) {
+							j = mk.Common().Args[1]
+						}
+					}
+				}
+				low, isBo2 := sl.Low.(*ssa.BinOp)
+				if j != nil && sl.High == nil && isBo2 && low.Op == token.ADD {
+					k, isK := constInt(low.Y)
+					if low.X == j && isK && k == 1 {
+						okAfter = true
+						continue
+					}
+				}
+				whyAfter = "the window after the cursor at " + w.InstrPos(sl) + " does not start right behind the matched element (the element is repeated or one is skipped)"
+			}
+		}
+	}
+	c.Check(okAfter, "R20.6", name+":after-window", w.FnPos(fn), "the window starts right behind the element the 'after' cursor designates", whyAfter)
+
+	// before-scan: collection only on the not-matched edge, match leaves the loop
+	okBefore, whyBefore := false, "no scan for the 'before' cursor found"
+	for _, b := range fn.Blocks {
+		if len(b.Instrs) == 0 {
+			continue
+		}
+		iff, isIf := b.Instrs[len(b.Instrs)-1].(*ssa.If)
+		if !isIf {
+			continue
+		}
+		bo, isBo := iff.Cond.(*ssa.BinOp)
+		if !isBo || bo.Op != token.EQL || !(derefOfInputField(bo.X, "Before") || derefOfInputField(bo.Y, "Before")) {
+			continue
+		}
+		h := enclosingLoopHeader(b)
+		if h == nil {
+			whyBefore = "the 'before' comparison is not made while scanning"
+			continue
+		}
+		matched, rest := b.Succs[0], b.Succs[1]
+		nApp := 0
+		for _, x := range fn.Blocks {
+			if !inLoop(x, h) {
+				continue
+			}
+			for _, ins := range x.Instrs {
+				if cl, isCall := ins.(*ssa.Call); isCall {
+					if bi, isB := cl.Common().Value.(*ssa.Builtin); isB && bi.Name() == "append" {
+						nApp++
+						if !(rest == x || rest.Dominates(x)) {
+							whyBefore = "an element is collected at " + w.InstrPos(cl) + " before the 'before' cursor was compared, or although it matched: the page contains elements outside the window"
+							nApp = -100
+						}
+					}
+				}
+			}
+		}
+		if inLoop(matched, h) {
+			whyBefore = "the scan goes on after the 'before' cursor matched"
+			continue
+		}
+		if nApp >= 3 {
+			okBefore = true
+		} else if nApp >= 0 {
+			whyBefore = fmt.Sprintf("%d of the 3 lists (edges, cursors, nodes) are filled in the before-scan", nApp)
+		}
+	}
+	c.Check(okBefore, "R20.6", name+":before-window", w.FnPos(fn), "elements are collected until the 'before' cursor matches, which ends the scan", whyBefore)
+}
+
+// closureFn: the function behind a func-typed argument (closure, named function, conversions).
+func closureFn(v ssa.Value) *ssa.Function {
+	for i := 0; i < 6; i++ {
+		switch x := v.(type) {
+		case *ssa.ChangeType:
+			v = x.X
+		case *ssa.MakeClosure:
+			f, _ := x.Fn.(*ssa.Function)
+			return f
+		case *ssa.Function:
+			return x
+		default:
+			return nil
+		}
+	}
+	return nil
+}
+
+// storedToField: the values stored into field `name` of any struct in fn.
+func storedToField(fn *ssa.Function, name string) []*ssa.Store {
+	var out []*ssa.Store
+	for _, b := range fn.Blocks {
+		for _, ins := range b.Instrs {
+			if st, ok := ins.(*ssa.Store); ok {
+				if fa, ok := st.Addr.(*ssa.FieldAddr); ok && fieldName(fa) == name {
+					out = append(out, st)
+				}
+			}
+		}
+	}
+	return out
+}
+
+// checkEdgeAndConMakers (R20.7): what the resolvers plug into the pagination functions.
+func checkEdgeAndConMakers(c *Ctx) {
+	w := c.W
+	c.Doc("R20.7", "every edge maker handed to a pagination function builds the edge of the node it is given with Cursor = OffsetToCursor(the offset it is given); every connection maker passes the page info and the total count through unchanged and, when it rebuilds the edges, copies the cursor of the edge at the same position")
+	n := 0
+	for _, fn := range w.ModFns {
+		if isInstance(fn) || fnPkgPath(fn) != modPath+"/api/graphql/resolvers" {
+			continue
+		}
+		for _, cl := range Calls(fn) {
+			if !strings.HasPrefix(cl.Name, "api/graphql/connections.") || !strings.HasSuffix(cl.Name, "Con") {
+				continue
+			}
+			n++
+			args := cl.Args()
+			key := funcName(fn)
+			pos := w.InstrPos(cl.Instr)
+			em, cm := closureFn(args[1]), closureFn(args[2])
+			if em == nil || cm == nil || len(em.Params) != 2 || len(cm.Params) != 4 {
+				c.Undecided("R20.7", key+":edge-maker", pos, "edge maker / connection maker is not a function literal or named function that can be inspected")
+				continue
+			}
+			c.Sites += 2
+			okCursor, okNode := false, false
+			for _, st := range storedToField(em, "Cursor") {
+				if cv, isCall := st.Val.(*ssa.Call); isCall {
+					if nm, _ := callName(cv.Common()); nm == "api/graphql/connections.OffsetToCursor" && len(cv.Common().Args) == 1 && cv.Common().Args[0] == ssa.Value(em.Params[1]) {
+						okCursor = true
+					}
+				}
+			}
+			for _, f := range []string{"Node", "Id"} {
+				for _, st := range storedToField(em, f) {
+					for _, o := range origins(st.Val) {
+						if o.Kind == "param" && o.Val == ssa.Value(em.Params[0]) {
+							okNode = true
+						}
+					}
+				}
+			}
+			c.Check(okCursor, "R20.7", key+":edge-cursor", w.FnPos(em), "Cursor = OffsetToCursor(offset)", "the edge maker does not derive the cursor from the offset it is given: the cursors a client sends back do not designate the elements they were attached to")
+			c.Check(okNode, "R20.7", key+":edge-node", w.FnPos(em), "the edge carries the node it was made for", "the edge maker does not put the node it is given into the edge")
+			okInfo, okTotal, okEdges := false, false, false
+			for _, st := range storedToField(cm, "PageInfo") {
+				if st.Val == ssa.Value(cm.Params[2]) {
+					okInfo = true
+				}
+			}
+			for _, st := range storedToField(cm, "TotalCount") {
+				if st.Val == ssa.Value(cm.Params[3]) {
+					okTotal = true
+				}
+			}
+			whyEdges := "the connection returned does not carry the edges of the page"
+			for _, st := range storedToField(cm, "Edges") {
+				if st.Val == ssa.Value(cm.Params[0]) {
+					okEdges = true
+					continue
+				}
+				// rebuilt: out[i] = &Edge{Cursor: in[i].Cursor, ...} for the ranged i, out made with len(in)
+				mk, isMk := st.Val.(*ssa.MakeSlice)
+				if !isMk {
+					continue
+				}
+				if lc, isCall := mk.Len.(*ssa.Call); !isCall || len(lc.Common().Args) != 1 || lc.Common().Args[0] != ssa.Value(cm.Params[0]) {
+					whyEdges = "the rebuilt edge list does not have the length of the page"
+					continue
+				}
+				for _, cst := range storedToField(cm, "Cursor") {
+					ld, isLd := cst.Val.(*ssa.UnOp)
+					if !isLd {
+						continue
+					}
+					fa, isFA := ld.X.(*ssa.FieldAddr)
+					if !isFA || fieldName(fa) != "Cursor" {
+						continue
+					}
+					eld, isELd := fa.X.(*ssa.UnOp)
+					if !isELd {
+						continue
+					}
+					src, isIA := eld.X.(*ssa.IndexAddr)
+					if !isIA || src.X != ssa.Value(cm.Params[0]) {
+						continue
+					}
+					// where does the new edge go?
+					newEdge := cst.Addr.(*ssa.FieldAddr).X
+					for _, r := range *newEdge.Referrers() {
+						if est, isSt := r.(*ssa.Store); isSt && est.Val == newEdge {
+							if dst, isDst := est.Addr.(*ssa.IndexAddr); isDst && dst.X == ssa.Value(mk) {
+								if dst.Index == src.Index {
+									okEdges = true
+								} else {
+									whyEdges = "the rebuilt edge at one position carries the cursor of the edge at another"
+								}
+							}
+						}
+					}
+				}
+			}
+			c.Check(okInfo, "R20.7", key+":page-info-passed", w.FnPos(cm), "PageInfo is the one computed by the pagination function", "the connection maker does not pass on the page info it is given")
+			c.Check(okTotal, "R20.7", key+":total-count-passed", w.FnPos(cm), "TotalCount is the count it is given", "the connection maker does not pass on the total count it is given")
+			c.Check(okEdges, "R20.7", key+":edges-passed", w.FnPos(cm), "edges are those of the page (passed through, or rebuilt position by position with the same cursors)", whyEdges)
+		}
+	}
+	if n < 6 {
+		c.Violate("R20.7", "expected:pagination-calls", "api/graphql/resolvers", fmt.Sprintf("%d pagination calls found (reference 8)", n))
 	}
 }
